@@ -395,20 +395,32 @@ class Interp:
     def init_global(self, st, loc):
         st.ginit.add(loc)
         name = loc[1]
-        if name not in self.const_globals:
-            return False
         decl = None
         unit = None
-        for u in self.prog.units.values():
+        units = [self.prog.units[loc[2]]] if len(loc) > 2 and loc[2] in self.prog.units else list(self.prog.units.values())
+        for u in units:
             d = u.globals.get(name)
             if d is not None and 'init' in d:
                 decl, unit = d, u
                 break
         if decl is None:
             return False
+        # constant tables: named ones (ops tables are not const-qualified but never written: checked by C13/C18) or const-qualified
+        qt = decl.get('type', {}).get('qualType', '')
+        if name not in self.const_globals and not qt.lstrip().startswith('const') and ' const' not in qt.split('[')[0] and '*const' not in qt:
+            return False
         init = [c for c in decl.get('inner', ()) if not c['kind'].endswith('Attr') and not c['kind'].endswith('Comment')]
         if not init:
             return False
+        if '(unnamed' in qt or '(anonymous' in qt:
+            prev = None
+            for d2 in unit.tu.get('inner', ()):
+                if d2 is decl:
+                    break
+                if d2.get('kind') == 'RecordDecl':
+                    prev = d2
+            if prev is not None:
+                self._anon_rec = prev
         self.unit_stack.append(self.u)
         self.u = unit
         try:
